@@ -1552,7 +1552,13 @@ func reportItem(r *Report, id, key, pos string, item shape, later *shape, proble
 
 // accessPath names a value by the way it is obtained, so that two loads of the same field compare equal.
 // fields collects the "Type.field" names read on the way.
+// accessSubst maps the parameters of a helper under analysis to the access path of the caller's argument.
+var accessSubst map[ssa.Value]string
+
 func accessPath(w *World, v ssa.Value, fields map[string]bool) string {
+	if s, ok := accessSubst[v]; ok {
+		return s
+	}
 	switch x := v.(type) {
 	case *ssa.Parameter:
 		return x.Name()
@@ -1984,6 +1990,95 @@ func checkHeader(w *World, t *textCtx, eff **Effects, fn *ssa.Function, h *ssa.C
 		terms := countTerms(w, bound, fields)
 		got = append(got, terms...)
 		notes = append(notes, fmt.Sprintf("%s writes one line per iteration, %s iterations", l.Desc, strings.Join(terms, "+")))
+	}
+	if mech == "sink" {
+		// loops moved into helpers that receive the same output: `writeClauses(cnf, w)` called after the header
+		for _, ci := range callsIn(fn) {
+			c, ok := ci.(*ssa.Call)
+			if !ok || c == h || !instrReachableFrom(pivot, c) {
+				continue
+			}
+			g := c.Call.StaticCallee()
+			if g == nil || len(g.Blocks) == 0 || !w.InModule(w.unwrap(g)) {
+				continue
+			}
+			g = w.unwrap(g)
+			var gsink ssa.Value
+			for i, a := range c.Call.Args {
+				if sinkOf(a) == sink && sink != stdoutSink && i < len(g.Params) {
+					gsink = g.Params[i]
+				}
+			}
+			if gsink == nil {
+				continue
+			}
+			gems := map[ssa.Instruction]*emission{}
+			for _, e := range t.emissionsIn(g) {
+				gems[e.Instr] = e
+			}
+			subst := map[ssa.Value]string{}
+			for i, a := range c.Call.Args {
+				if i < len(g.Params) {
+					subst[g.Params[i]] = accessPath(w, a, fields)
+				}
+			}
+			for _, l := range loopsOf(w, g) {
+				if l.Depth != 1 {
+					continue
+				}
+				var texts []string
+				for b := range l.Body {
+					for _, ins := range b.Instrs {
+						if e := gems[ins]; e != nil && e.Sink == gsink {
+							texts = append(texts, e.Text...)
+						}
+					}
+				}
+				it := sinkItem(l, gems, gsink, nil)
+				if it.bottom() || it == emptyShape {
+					continue
+				}
+				desc := w.FuncName(g) + " (called at " + w.InstrPos(c) + ") " + l.Desc
+				if startsWithMarker(texts, "c") {
+					notes = append(notes, desc+" writes comment lines")
+					continue
+				}
+				if it.nl != n1 {
+					if it.nl&nU != 0 {
+						return 2, desc + ": cannot count the lines written per iteration: " + showAlts(texts)
+					}
+					return 1, desc + ": an iteration does not write exactly one line: " + showAlts(texts)
+				}
+				bound, why := tripCount(l)
+				if bound == nil {
+					return 2, desc + ": " + why
+				}
+				// the helper must run exactly once whenever the function succeeds
+				if inLoop(fn, c.Block()) {
+					return 2, desc + ": the helper is called inside a loop"
+				}
+				okAll := true
+				allInstrs(fn, func(ins ssa.Instruction) {
+					ret, isRet := ins.(*ssa.Return)
+					if !isRet || !instrReachableFrom(pivot, ret) || instrDominates(c, ret) {
+						return
+					}
+					for _, rv := range ret.Results {
+						if k, isK := rv.(*ssa.Const); isK && k.IsNil() {
+							okAll = false // a success return that bypasses the helper
+						}
+					}
+				})
+				if !okAll {
+					return 1, desc + ": the function can return successfully without calling the helper that writes these lines"
+				}
+				accessSubst = subst
+				terms := countTerms(w, bound, fields)
+				accessSubst = nil
+				got = append(got, terms...)
+				notes = append(notes, fmt.Sprintf("%s writes one line per iteration, %s iterations", desc, strings.Join(terms, "+")))
+			}
+		}
 	}
 	if mech == "slice" {
 		// the slice must be joined with exactly one newline per element
